@@ -353,7 +353,7 @@ func (w *W) opMint(op string, qi int, variant string) error {
 			w.viol("C03", "issued-again-after-issuance", "MintTokens(q%d,%s) succeeded although the quote was already issued %d× for %d payment(s)", qi, variant, q.Successes, q.Payments)
 		}
 		if over || bigSumMsgs(req.Outputs).Cmp(new(big.Int).SetUint64(amt)) > 0 {
-			w.viol("C02", "mint-outputs-over-quote-amount", "MintTokens(q%d,%s): outputs %s accepted for quote amount %d", qi, variant, bigSumMsgs(req.Outputs), amt)
+			w.viol("C02,C03", "mint-outputs-over-quote-amount", "MintTokens(q%d,%s): outputs %s accepted for quote amount %d", qi, variant, bigSumMsgs(req.Outputs), amt)
 		}
 		if !sigOK {
 			w.viol("C03", "nut20-invalid-signature-accepted", "MintTokens(q%d,%s) accepted without a valid NUT-20 signature", qi, variant)
@@ -368,7 +368,7 @@ func (w *W) opMint(op string, qi int, variant string) error {
 		q.Issued += sum
 		w.recordSigs(op, outs, sigs)
 	} else if honest && paid && q.Successes < q.Payments && !alreadySigned && sigOK {
-		w.viol("C06", "honest-mint-refused", "MintTokens(q%d,%s) refused (%v) although the quote is paid and not issued", qi, variant, err)
+		w.viol("C06,C03", "honest-mint-refused", "MintTokens(q%d,%s) refused (%v) although the quote is paid and not issued", qi, variant, err)
 	}
 	return nil
 }
@@ -470,7 +470,7 @@ func (w *W) opSwap(op, ins, variant string) error {
 	w.note(op, err)
 	if err == nil {
 		if usedBefore {
-			w.viol("C01", "swap-of-used-secret-accepted", "Swap(%s,%s) accepted although an input is %s in the model", ins, variant, "spent/pending")
+			w.viol("C01,C05", "swap-of-used-secret-accepted", "Swap(%s,%s) accepted although an input is %s in the model", ins, variant, "spent/pending")
 		}
 		if dup {
 			w.viol("C01", "swap-duplicate-secret-in-request-accepted", "Swap(%s) accepted with the same secret twice", ins)
@@ -501,7 +501,7 @@ func (w *W) opSwap(op, ins, variant string) error {
 			}
 		}
 		if honest {
-			w.viol("C06", "honest-swap-refused", "Swap(%s,%s) refused: %v (inputs unspent, outputs = inputs - fee %s)", ins, variant, err, fee)
+			w.viol("C06,C05,C09", "honest-swap-refused", "Swap(%s,%s) refused: %v (inputs unspent, outputs = inputs - fee %s)", ins, variant, err, fee)
 		}
 	}
 	return nil
@@ -675,7 +675,7 @@ func (w *W) opMelt(op string, mi int, ins, pay, status string) error {
 	accepted := payCalls > 0 || internalDone
 	if accepted {
 		if usedBefore {
-			w.viol("C01", "melt-of-used-secret-accepted", "MeltTokens(mq%d,%s): payment attempted although an input is spent/pending in the model", mi, ins)
+			w.viol("C01,C05", "melt-of-used-secret-accepted", "MeltTokens(mq%d,%s): payment attempted although an input is spent/pending in the model", mi, ins)
 		}
 		if dup {
 			w.viol("C01", "melt-duplicate-secret-in-request-accepted", "MeltTokens(mq%d,%s) with the same secret twice attempted payment", mi, ins)
@@ -711,7 +711,7 @@ func (w *W) opMelt(op string, mi int, ins, pay, status string) error {
 		}
 		honest := !usedBefore && !dup && enough && !quoteBusy && len(proofs) > 0
 		if honest {
-			w.viol("C06", "honest-melt-refused", "MeltTokens(mq%d,%s) refused: %v", mi, ins, err)
+			w.viol("C06,C05,C09", "honest-melt-refused", "MeltTokens(mq%d,%s) refused: %v", mi, ins, err)
 		}
 	}
 	return nil
